@@ -330,6 +330,49 @@ PROPS = {
      'legs': {'thorough': [{'kind': 'miri',
                             'args': ['run', 'C15', '--seed', '{seed}', '--shard', '0', '--nshards', '1', '--tier', 'quick', '--budget', '150', '--out', '{out}'],
                             'timeout': 5400}]}},
+    'C16': {'budget': {'quick': 50000, 'thorough': 800000},
+     'rule': 'at k = 0 every shard first executes 7 fixed witnesses of the defects recorded in REPORT.md (c); then a case is a pure function of (seed, shard, k): '
+             'one pair of lon/lat points (a, b) drawn from one of ten generators (general uniform-on-sphere / quarter-degree / special-value points with |lat| <= '
+             '85; local 0.1 m - 1000 km; antimeridian-straddling incl. lon = +-180 exactly; meridional and over-the-pole meridional; equatorial / nearly east-west '
+             "with latitude differences 0, around geo's |dpsi| = 1e-11 switch, and 1e-15.5 .. 1e-3 degrees; nearly coincident incl. +-3 ulp neighbours; high "
+             'latitude 85-89.9; observe-only poles / antipodes / coincident points), a ratio r in [0,1] (0, 1, 0.5, 1-2^-53, 2^-52, 5e-324, 10^-17..10^-1, '
+             'uniform), a free bearing in [-720, 1080] incl. exact multiples of 90 +- 1e-15..1e-3, a free distance (+-1 mm .. 2e7 m, +-1e7..1e8 m, 0, -0, '
+             'denormal), a max_distance = d/x with x <= 24 (exact integers, integers +- 1e-15, < 1, = 1), a line string of 0-9 points and its split into a multi '
+             'line string, a custom sphere radius (1 .. 1e8 m) and a custom ellipsoid (7 named ones, or a in [1e5, 3e7] m with f in [0, 0.012]). Every case goes '
+             'through Haversine, HaversineMeasure::{GRS80_MEAN_RADIUS, GRS80_EQUAL_AREA, GRS80_EQUAL_VOLUME, new(radius)}, Geodesic, GeodesicMeasure::{wgs84(), '
+             'new(a, f)}, Rhumb and the deprecated Haversine*/Geodesic*/Rhumb* traits. Judged: distance finite, >= 0, exactly 0 on identical points, symmetric '
+             "within 64u(d+R); bearing in [0,360); destination(a, bearing(a,b), distance(a,b)) within tau of b measured with the space's own distance (also with "
+             'bearing+360k and with (bearing+180, -distance)); point_at_ratio_between / point_at_distance_between divide the distance r : 1-r within tau at both '
+             'ends; points_along_line: with max_distance = 1024 x distance only the two end points, include_ends adds exactly the two end points, consecutive '
+             'distance <= max_distance + tau, interior points evenly spaced and equal to point_at_ratio_between(a, b, j/n) within tau; length(Line | LineString | '
+             'MultiLineString) == sum of segment distances within 16 n u sum; every returned longitude in [-180,180], latitude in [-90,90], finite; free (bearing, '
+             'distance): distance(a, destination) == |s| and bearing(a, destination) == bearing (mod 360, +180 for negative s) within tau; independent references: '
+             'documented radii exactly, great-circle distance / bearing / destination from n-vector formulas, loxodrome distance / course / destination from the '
+             'cancellation-free isometric-latitude difference 2 atanh(sin(dphi/2)/cos(phi_mid)), Geodesic against direct geographiclib_rs inverse/direct calls '
+             '(lat/lon order, azimuth mod 360, custom a and f); deprecated traits equal to the new API bit for bit (HaversineBearing / GeodesicBearing: equal mod '
+             '360 and in [-180,180]). tau = 1 mm x (body radius / Earth radius); for Rhumb plus 256 u d_ew/(|dpsi| cos(phi_max)) (= 256 u d_ew/|dphi| for small '
+             "latitude differences) on nearly east-west courses above geo's |dpsi| = 1e-11 switch and 16 d_ew tan(phi) |dphi| below it (d_ew = east-west extent). "
+             'Tolerance clauses are judged in the strata general, antimeridian, meridional, meridional_over_pole, east_west, near_coincident, high_latitude '
+             '(classified from the generated pair, not from the generator); poles (|lat| > 89.9), antipodes (separation > pi - 0.02) and coincident points are '
+             'observe-only: finite output, ranges, no panic. Non-trivial = case whose pair falls in the general stratum (|lat| <= 85, separation in [1e-7, '
+             'pi-0.02] rad, not antimeridian-straddling, not meridional, latitude difference >= 1e-3 degrees); distinct = distinct FNV digest of the bit patterns '
+             'of (a, b, r, free bearing, free distance), merged over shards.',
+     'assumptions': ['inputs: finite longitudes in [-180, 180] and latitudes in [-90, 90] (f64 only; the f32 instantiations of Haversine / Rhumb are not '
+                     'monitored)',
+                     "the statement's 'millimetre-scale tolerance' is read as 1 mm on the Earth, scaled with the radius of a custom sphere / the equatorial radius "
+                     'of a custom ellipsoid',
+                     "Rhumb, nearly east-west courses (0 < |dlat|, |dpsi| > 1e-11): geo's q = dphi/dpsi loses accuracy like u/|dphi|; per DESIGN.md this stratum "
+                     'has its own calibrated tolerance 256 u d_ew/(|dpsi| cos(phi_max)) (errors up to 860 m are observed and accepted there; see REPORT.md (c) N1)',
+                     'Rhumb destinations whose course reaches or passes a pole (|phi1 + delta cos(theta)| >= pi/2) are observe-only: a loxodrome ends at the pole',
+                     'inverse relation (distance / bearing back from a free destination) is judged only while the travelled arc is certainly the shortest one: |s| '
+                     '<= (pi - 0.02) R (sphere), (pi - 0.02) b (ellipsoid), total longitude change < 180 degrees (rhumb), origin and destination |lat| <= 85',
+                     'points_along_line: max_distance > 0 only (max_distance <= 0 makes the implementations loop forever and is outside the statement); an extra '
+                     'interior point just before the end (accumulated step k*(1/n) < 1 after n additions) is counted (class along:extra_point_at_end) and judged '
+                     'like the other points, not reported, because the documentation does not promise the count',
+                     "Geodesic results are compared with the same geographiclib_rs version the harness links (0.2.7, 'accurate' feature off); the three repository "
+                     'unit tests that fail in this sandbox compare against constants produced by another build of that library (last-digit differences) and are '
+                     'unrelated to the clauses monitored here'],
+     'min_nontrivial': {'quick': 10000, 'thorough': 150000}},
     'C17': {'required_probes': ['prepared.clone_for_arg_index.swap'],
      'budget': {'quick': 4000, 'thorough': 40000},
      'rule': 'one case = one recorded history: a PreparedGeometry (owned, from the Geometry enum) reused for 10-60 (thorough: up to 300) relate calls against a '
